@@ -205,6 +205,12 @@ def gen_na(rng, tier):
         for px in all_patterns(3):
             if any(px):
                 yield {"fam": "na", "xt": xt, "x": cfill(rng, xt, px), "fill": 0, "xtyped": "declared"}
+        # vectors whose dtype is nullable although they hold no None right now (or fewer than when the dtype was fixed): the
+        # trailing None of a longer vector sliced / masked / indexed away, or overwritten in place
+        for px in all_patterns(4):
+            for fi in range(len(FILLS[xt])):
+                for route in ("slice", "mask", "index", "write"):
+                    yield {"fam": "na", "xt": xt, "x": cfill(rng, xt, px), "fill": fi, "route": route}
 
 
 def gen_agg(rng, tier):
@@ -436,6 +442,27 @@ def na_wire(spec):
     I = Interner()
     xs = cvals(spec["xt"], spec["x"])
     v = cvector(spec["xt"], xs, spec.get("xtyped", False))
+    route = spec.get("route")
+    if route:
+        try:
+            n = len(xs)
+            if route == "write":
+                nn = [e for e in xs if e is not None]
+                if not nn:
+                    return {"skip": "nothing to overwrite the None with"}
+                w = cvector(spec["xt"], xs + [None], False)
+                w[n] = nn[0]
+                xs = xs + [nn[0]]
+                v = w
+            else:
+                w = cvector(spec["xt"], xs + [None], False)
+                v = w[:n] if route == "slice" else w[[True] * n + [False]] if route == "mask" else w[list(range(n))]
+            if list(v) != xs and not (len(xs) == 0):
+                return {"skip": "route did not produce the intended contents"}
+            if len(xs) == 0:
+                return {"skip": "empty selection"}
+        except Exception as e:
+            return {"skip": "route raised " + type(e).__name__}
     label, x = FILLS[spec["xt"]][spec["fill"] % len(FILLS[spec["xt"]])]
     conv = []
     if x is not None:
